@@ -460,6 +460,7 @@ def main(argv=None):
             print(f"VIOLATION property={a.prop} replay={a.replay}")
         sys.exit(p.returncode)
     tier = a.tier if a.tier in ("quick", "thorough") else "quick"
+    os.environ["VERIF_TIER"] = tier    # seen by the native twin (speclib/pyvc_spec.by_tier)
     sys.exit(run_check(a.prop, tier, seed, jobs=a.jobs, only=a.only))
 
 
